@@ -39,45 +39,36 @@ def binOp (t : TokType) : Bool := Parser.lookup infixRegs t == some .parseInfixE
 /-- tokens registered with parsePrefixExpression -/
 def preOp (t : TokType) : Bool := Parser.lookup prefixRegs t == some .parsePrefixExpression
 
-/-! ### the fragment -/
+/-- tokens registered with parseBuiltin -/
+def builtinOp (t : TokType) : Bool := Parser.lookup prefixRegs t == some .parseBuiltin
 
-mutual
-def fragN : Node → Bool
-  | .ident t => t.type == .IDENT
-  | .intLit t => t.type == .INT
-  | .floatLit t => t.type == .INT || t.type == .FLOAT
-  | .strLit t => t.type == .STRING
-  | .boolean t => t.type == .TRUE || t.type == .FALSE
-  | .pre t r => preOp t.type && fragO r
-  | .infix t l r =>
-    binOp t.type && fragO l &&
-      (match r with
-       | some r => !sameAssociativeOperator t r && fragN r
-       | none => false)
-  | .call t f args => t == ⟨.LPAREN, [40]⟩ && fragO f && fragL args
-  | .array t es => t == ⟨.LBRACKET, [91]⟩ && fragL es
-  | .index t l i => (t.type == .LBRACKET || t.type == .DOT) && fragO l && fragO i
-  | _ => false
-def fragO : Option Node → Bool
-  | none => false
-  | some n => fragN n
-def fragL : List (Option Node) → Bool
-  | [] => true
-  | x :: xs => fragO x && fragL xs
-end
+/-- `-`, `+`, `^`, `++`, `--`: a prefix operator that also continues an expression -/
+def ambiguousOp (t : TokType) : Bool :=
+  t == .MINUS || t == .PLUS || t == .BITXOR || t == .INCR || t == .DECR
 
-/-! ### expressions -/
+def startsAmbiguous (l : List Tok) : Bool :=
+  match l with
+  | x :: _ => ambiguousOp x.type
+  | [] => false
+
+def lbrace : Tok := sym .LBRACE [123] false
+def rbrace : Tok := sym .RBRACE [125] false
+
+/-! ### expressions, blocks, statement lists -/
 
 mutual
 /-- `n.PrettyPrint(ps)` with `ps.ExpressionPrecedence = q`; `ws`: whitespace was written in front -/
 def exprToks (c ap : Bool) (q : Nat) (ws : Bool) : Node → List Tok
-  | .ident t | .strLit t | .boolean t => [tk t ws]
+  | .ident t | .strLit t | .boolean t | .control t => [tk t ws]
   | .intLit t => [tkNum t .int ws]
   | .floatLit t => [tkNum t .float ws]
   | .pre t r =>
     if ap || decide (prioPREFIX ≤ q) then
       lparen ws :: tk t false :: exprToksO c ap prioPREFIX false r ++ [rparen]
     else tk t ws :: exprToksO c ap prioPREFIX false r
+  | .post t p =>
+    if ap || decide (Parser.precOf t.type < q) then [lparen ws, tk p false, tk t false, rparen]
+    else [tk p ws, tk t false]
   | .infix t l (some r) =>
     -- `needParen`: the operator's precedence (the printer panics when it has none: outside the fragment)
     if ap || decide (Parser.precOf t.type < q) then
@@ -90,6 +81,7 @@ def exprToks (c ap : Bool) (q : Nat) (ws : Bool) : Node → List Tok
   | .call _ f args =>
     exprToksO c ap prioCALL ws f ++ lparen false :: listToks c ap prioLOWEST false args ++ [rparen]
   | .array _ es => sym .LBRACKET [91] ws :: listToks c ap q false es ++ [rbracket]
+  | .builtin t ps => tk t ws :: lparen false :: listToks c ap q false ps ++ [rparen]
   | .index t l i =>
     (if ap || decide (Parser.precOf t.type < q) then [lparen ws] else []) ++
     (if t.type == .DOT && isNumberLiteral l then
@@ -101,6 +93,13 @@ def exprToks (c ap : Bool) (q : Nat) (ws : Bool) : Node → List Tok
      else exprToksO c ap prioLOWEST false i) ++
     (if t.type == .LBRACKET then [rbracket] else []) ++
     (if ap || decide (Parser.precOf t.type < q) then [rparen] else [])
+  | .func t name params body _ isLambda =>
+    if isLambda then [] else
+    tk t ws :: (match name with | some nm => [tk nm true] | none => []) ++
+      lparen false :: listToks c ap q false params ++ rparen :: blockToks c ap body
+  | .forE _ cond body => sym .FOR [102, 111, 114] ws :: exprToksO c ap q true cond ++ blockToks c ap body
+  | .ifE _ cond cons alt =>
+    sym .IF [105, 102] ws :: exprToksO c ap q true cond ++ blockToks c ap cons ++ altToks c ap q alt
   | _ => []
 def exprToksO (c ap : Bool) (q : Nat) (ws : Bool) : Option Node → List Tok
   | none => []
@@ -110,44 +109,98 @@ def listToks (c ap : Bool) (q : Nat) (notFirst : Bool) : List (Option Node) → 
   | [] => []
   | x :: xs =>
     (if notFirst then [comma] else []) ++ exprToksO c ap q (notFirst && !c) x ++ listToks c ap q true xs
+/-- `(*Statements).PrettyPrint` inside braces -/
+def blockToks (c ap : Bool) : Option (List (Option Node)) → List Tok
+  | none => []
+  | some l => lbrace :: stmtsToks c ap true true l ++ [rbrace]
+/-- printElse: `else if …` when the alternative is a single `if`, a block otherwise -/
+def altToks (c ap : Bool) (q : Nat) : Option (List (Option Node)) → List Tok
+  | none => []
+  | some [some a] =>
+    sym .ELSE [101, 108, 115, 101] true ::
+      (if a.tok.type = .IF then exprToks c ap q true a else lbrace :: stmtsToks c ap true true [some a] ++ [rbrace])
+  | some l => sym .ELSE [101, 108, 115, 101] true :: lbrace :: stmtsToks c ap true true l ++ [rbrace]
+/-- `Statements.PrettyPrint`'s loop; `inBlock`: inside braces (normal mode: every statement on its own indented line);
+`first`: no statement precedes.  In compact mode a later statement starting with `-`, `+`, `^` is printed in parentheses. -/
+def stmtsToks (c ap : Bool) (inBlock first : Bool) : List (Option Node) → List Tok
+  | [] => []
+  | none :: _ => []
+  | some n :: rest =>
+    (match n with
+     | .ret t v => tk t (!first || (inBlock && !c)) :: exprToksO c ap prioLOWEST true v
+     | n =>
+       if c && !first && startsAmbiguous (exprToks c ap prioLOWEST (!first || (inBlock && !c)) n) then
+         lparen true :: exprToks c ap prioLOWEST false n ++ [rparen]
+       else exprToks c ap prioLOWEST (!first || (inBlock && !c)) n) ++
+    stmtsToks c ap inBlock false rest
 end
 
-/-! ### statements -/
-
-/-- `-`, `+`, `^`, `++`, `--`: a prefix operator that also continues an expression -/
-def ambiguousOp (t : TokType) : Bool :=
-  t == .MINUS || t == .PLUS || t == .BITXOR || t == .INCR || t == .DECR
-
-def startsAmbiguous (l : List Tok) : Bool :=
-  match l with
-  | x :: _ => ambiguousOp x.type
-  | [] => false
-
-/-- one statement of a statement list; `first`: it is the first one (no separator in front).  In compact
-mode a later statement starting with `-`, `+`, `^` is printed in parentheses. -/
-def stmtToks (c ap : Bool) (first : Bool) (n : Node) : List Tok :=
-  if c && !first && startsAmbiguous (exprToks c ap prioLOWEST (!first) n) then
-    lparen true :: exprToks c ap prioLOWEST false n ++ [rparen]
-  else exprToks c ap prioLOWEST (!first) n
-
-def progToksAux (c ap : Bool) : Bool → List (Option Node) → List Tok
-  | _, [] => []
-  | first, some n :: rest => stmtToks c ap first n ++ progToksAux c ap false rest
-  | _, none :: _ => []
-
 /-- the tokens of `printProgram prog c ap` (without the end marker) -/
-def progToks (c ap : Bool) (prog : List (Option Node)) : List Tok := progToksAux c ap true prog
+def progToks (c ap : Bool) (prog : List (Option Node)) : List Tok := stmtsToks c ap false true prog
 
-/-- normal mode: no statement but the first starts with `-`, `+`, `^`, `++`, `--` (recorded class
-"statement-starts-with-prefix-operator": on its own line such a statement continues the previous one) -/
-def noAmbiguousStart (ap : Bool) : Bool → List (Option Node) → Bool
-  | _, [] => true
-  | first, some n :: rest => (first || !startsAmbiguous (stmtToks false ap first n)) && noAmbiguousStart ap false rest
-  | _, none :: _ => false
+/-! ### the fragment (per print mode: the statement lists of normal mode must not have a statement, other than
+the first, that starts with `-`, `+`, `^`, `++`, `--` — recorded class "statement-starts-with-prefix-operator") -/
+
+/-- `func(a, b, ..)`: identifiers, the last one may be `..` (then, and only then, the function is variadic) -/
+def paramsOK (variadic : Bool) : List (Option Node) → Bool
+  | [] => !variadic
+  | [some (.ident t)] => if t.type == .DOTDOT then variadic else t.type == .IDENT && !variadic
+  | some (.ident t) :: rest => t.type == .IDENT && paramsOK variadic rest
+  | _ => false
+
+mutual
+def fragN (c ap : Bool) : Node → Bool
+  | .ident t => t.type == .IDENT
+  | .intLit t => t.type == .INT
+  | .floatLit t => t.type == .INT || t.type == .FLOAT
+  | .strLit t => t.type == .STRING
+  | .boolean t => t.type == .TRUE || t.type == .FALSE
+  | .control t => t.type == .BREAK || t.type == .CONTINUE
+  | .pre t r => preOp t.type && fragO c ap r
+  | .post t p => (t.type == .INCR || t.type == .DECR) && p.type == .IDENT
+  | .infix t l r =>
+    binOp t.type && fragO c ap l &&
+      (match r with
+       | some r => !sameAssociativeOperator t r && fragN c ap r
+       | none => false)
+  | .call t f args => t == ⟨.LPAREN, [40]⟩ && fragO c ap f && fragL c ap args
+  | .array t es => t == ⟨.LBRACKET, [91]⟩ && fragL c ap es
+  | .builtin t ps => builtinOp t.type && fragL c ap ps
+  | .index t l i => (t.type == .LBRACKET || t.type == .DOT) && fragO c ap l && fragO c ap i
+  | .func t name params body variadic isLambda =>
+    !isLambda && t.type == .FUNC && (match name with | some nm => nm.type == .IDENT | none => true) &&
+      paramsOK variadic params && fragB c ap body
+  | .forE t cond body => t == ⟨.FOR, [102, 111, 114]⟩ && fragO c ap cond && fragB c ap body
+  | .ifE t cond cons alt => t == ⟨.IF, [105, 102]⟩ && fragO c ap cond && fragB c ap cons && fragAlt c ap alt
+  | _ => false
+def fragO (c ap : Bool) : Option Node → Bool
+  | none => false
+  | some n => fragN c ap n
+def fragL (c ap : Bool) : List (Option Node) → Bool
+  | [] => true
+  | x :: xs => fragO c ap x && fragL c ap xs
+def fragB (c ap : Bool) : Option (List (Option Node)) → Bool
+  | none => false
+  | some l => fragS c ap true true l
+def fragAlt (c ap : Bool) : Option (List (Option Node)) → Bool
+  | none => true
+  | some [some a] =>
+    if a.tok.type = .IF then (match a with | .ifE .. => fragN c ap a | _ => false) else fragS c ap true true [some a]
+  | some l => fragS c ap true true l
+/-- a statement list: expression statements and `return`; a `return` without a value only at the end -/
+def fragS (c ap : Bool) (inBlock first : Bool) : List (Option Node) → Bool
+  | [] => true
+  | none :: _ => false
+  | some n :: rest =>
+    (match n with
+     | .ret t v => t.type == .RETURN && (match v with | none => rest.isEmpty | some v => fragN c ap v)
+     | n => fragN c ap n &&
+         (c || first || !startsAmbiguous (exprToks c ap prioLOWEST (!first || (inBlock && !c)) n))) &&
+    fragS c ap inBlock false rest
+end
 
 /-- the fragment of programs, per print mode -/
-def fragProg (c ap : Bool) (prog : List (Option Node)) : Bool :=
-  fragL prog && (c || noAmbiguousStart ap true prog)
+def fragProg (c ap : Bool) (prog : List (Option Node)) : Bool := fragS c ap false true prog
 
 /-- the end marker as the lexer returns it -/
 def eofTok : Tok := sym .EOF [] false
